@@ -1771,6 +1771,21 @@ def unit_parseroots(inj, scratch):
     return dict(functions=[r], dropped=[d])
 
 
+def unit_topn(inj, scratch):
+    """util/top_n.rs: struct TopN and its impl block verbatim; std BTreeMap replaced by a sorted-vector stand-in with the same method names."""
+    frag_begin(inj)
+    s = src('src/util/top_n.rs', scratch)
+    st = s.item('struct', 'TopN')
+    im = s.item('impl', 'TopN')
+    body = s.text[st['start']:st['end']] + '\n\n' + s.text[im['start']:im['end']]
+    text = 'pub mod topn {\n' + H('frag_topn_prelude.rs') + '\n// ---- verbatim: struct TopN and impl TopN from src/util/top_n.rs ----\n' + body + '\n' + H('frag_topn.kani.rs') + '\n}\n'
+    inj.new_file(FRAG_FILE, text)
+    r, d = frag_record('topn::TopN', 'src/util/top_n.rs', 'struct TopN + impl<K: Ord, V> TopN<K, V> (whole items, verbatim)', body, body,
+                       ['std::collections::BTreeMap and Vec -> fixed-capacity array-backed stand-ins with the std method names (new, entry().or_default(), iter(), remove, insert, values, last_key_value, pop_last; push, pop, is_empty, iter, collect)'],
+                       'the real B-tree (T2); Criteria as key type (C05.criteria.*)')
+    return dict(functions=[r], dropped=[d], assumptions=['std BTreeMap behaves as a finite map ordered by key (sorted-vector stand-in)'])
+
+
 def unit_rowflow(inj, scratch):
     frag_begin(inj)
     s = src('src/searcher.rs', scratch)
